@@ -31,6 +31,8 @@ struct C {
     needs_union_double_int64: bool,
     needs_async: bool,
     prim_names: HashSet<String>,
+    /// The `*_free` helper, if any, generated for each name in `prim_names`.
+    prim_dtors: HashMap<String, String>,
     world: String,
     sizes: SizeAlign,
     renamed_interfaces: HashMap<WorldKey, String>,
@@ -1899,10 +1901,17 @@ impl InterfaceGenerator<'_> {
                         (false, format!("{namespace}_{encoded}_t"))
                     };
 
-                    let prev = self.r#gen.type_names.insert(ty, name);
+                    let prev = self.r#gen.type_names.insert(ty, name.clone());
                     assert!(prev.is_none());
 
                     if defined {
+                        // The C type was already emitted under this name (for
+                        // another `TypeId`, or for this one on the import
+                        // side), so share its `*_free` helper, if it has one,
+                        // instead of leaving this id without.
+                        if let Some(dtor) = self.r#gen.prim_dtors.get(&name) {
+                            self.r#gen.dtor_funcs.insert(ty, dtor.clone());
+                        }
                         continue;
                     }
 
@@ -1917,7 +1926,14 @@ impl InterfaceGenerator<'_> {
                         }
                     }
 
-                    self.define_anonymous_type(ty)
+                    self.define_anonymous_type(ty);
+                    self.define_dtor(ty);
+                    if is_prim {
+                        if let Some(dtor) = self.r#gen.dtor_funcs.get(&ty) {
+                            self.r#gen.prim_dtors.insert(name, dtor.clone());
+                        }
+                    }
+                    continue;
                 }
             }
 
